@@ -352,9 +352,36 @@ func (cm *CMap) addBfRange(startHex, endHex, dstHex string) {
 
 	startCode, err1 := parseHexToUint32(startHex)
 	endCode, err2 := parseHexToUint32(endHex)
-	dstUnicode, err3 := parseHexToUint32(dstHex)
+	if err1 != nil || err2 != nil {
+		return
+	}
 
-	if err1 != nil || err2 != nil || err3 != nil {
+	// A destination of more than one UTF-16 code unit (a surrogate pair or a
+	// multi-character string): the last code unit counts up through the range
+	if len(dstHex) > 4 {
+		if len(dstHex)%2 != 0 {
+			dstHex = "0" + dstHex
+		}
+		units, err := hex.DecodeString(dstHex)
+		if err != nil || len(units)%2 != 0 {
+			return
+		}
+		last := uint32(units[len(units)-2])<<8 | uint32(units[len(units)-1])
+		for code := startCode; code <= endCode && code-startCode < 0x10000; code++ {
+			u := (last + (code - startCode)) & 0xFFFF
+			units[len(units)-2], units[len(units)-1] = byte(u>>8), byte(u)
+			if text, err := decodeUTF16BE(units); err == nil {
+				cm.charMappings[code] = text
+			}
+			if code == 0xFFFFFFFF {
+				break
+			}
+		}
+		return
+	}
+
+	dstUnicode, err3 := parseHexToUint32(dstHex)
+	if err3 != nil {
 		return
 	}
 
